@@ -168,6 +168,9 @@ func (i ElementIndexer) Filter(rn *RNode) (*RNode, error) {
 		return nil, err
 	}
 	if i.Index < 0 {
+		if len(elems) == 0 {
+			return nil, nil
+		}
 		return elems[len(elems)-1], nil
 	}
 	if i.Index >= len(elems) {
